@@ -385,7 +385,8 @@ def concrete_search(run, c, ex, n_cases, seed):
     contract's executable oracle) on each outcome.  -> (found, detail, inputs, evaluated)"""
     if not all(value_level(s) for s in c.params.values()):
         return False, "no bounded search for heap-shaped inputs", None, 0
-    rnd = random.Random(seed * 7919 + hash(c.qn) % 1000)
+    import zlib
+    rnd = random.Random(seed * 7919 + zlib.crc32(c.qn.encode()) % 1000)  # (str hashes are randomised per process: not reproducible)
     pools = getattr(c, "pools", None) or {}
     cases = []
     seen = set()
